@@ -18,7 +18,7 @@ PROPERTY = "C06"
 
 META = {
     "bounds": {
-        "quick": "all expression trees with <= 2 operators (154 shapes) x 4 renderings x 10 contexts (incl. the same text evaluated twice in one scope, and the same expression in a code block spliced twice, with a variable re-assigned in between), leaves a..d in [0,2^12), shift amounts s in [0,8); literals: decimal 1-5 digits, 0x + 1-4 hex digits (both cases), 0b + 1-6 bits, all symbolic",
+        "quick": "all expression trees with <= 2 operators (154 shapes) x 4 renderings x 11 contexts (incl. inner scopes assigning temporaries of the variable's name, the same text evaluated twice in one scope, and the same expression in a code block spliced twice, with a variable re-assigned in between), leaves a..d in [0,2^12), shift amounts s in [0,8); literals: decimal 1-5 digits, 0x + 1-4 hex digits (both cases), 0b + 1-6 bits, all symbolic",
         "thorough": "trees with <= 3 operators (all) plus a VERIF_SEED-drawn sample of 4- and 5-operator trees; same leaves; literals up to 6/5/8 digits",
     },
     "outside": [
@@ -36,7 +36,7 @@ OPTS = {"quick": {"deadline_s": 300}, "thorough": {"deadline_s": 900}}
 STYLES = ["min", "sp", "full", "wide"]
 # contexts that use the directive lexer accept only some operators
 DIRECTIVE_OPS = {"+", "-", "*", "<<", ">>", "&"}
-CONTEXTS = ["str", "dl", "symbol", "assign", "macro", "if", "operand", "direct", "reeval", "splice2"]
+CONTEXTS = ["str", "dl", "symbol", "assign", "macro", "if", "operand", "direct", "reeval", "splice2", "inner-assign"]
 
 
 def all_trees(nmax):
@@ -161,6 +161,10 @@ def run(spec, cx):
             src = f"*=0x8000\n.macro m(q) {{\n.dl q\n.dw q\n}}\nm({text})\n"
         elif ctx == "if":
             src = f"*=0x8000\n.if {text} {{\n.db 1\n}} else {{\n.db 0\n}}\n"
+        elif ctx == "inner-assign":
+            # nested blocks / a macro / a loop assign temporaries that have the variable's name: the outer variable keeps its value
+            src = (f"*=0x8000\n.macro tmpm(q) {{\nx := q + 1\n.db x\n}}\nx := {text}\n{{\nx := 1\n{{\nx := 2\n}}\n}}\ntmpm(3)\n"
+                   f".for k := 0, 2 {{\nx := k\n}}\n.dl x\n.dw x\n")
         elif ctx == "reeval":
             # the same text evaluated twice in one scope, a variable it reads re-assigned in between
             src = f"*=0x8000\nq := {text}\na := a + 1\nr := {text}\n.dl q\n.dw r\n"
@@ -271,7 +275,9 @@ def check(spec, cx, out):
         if ctx == "direct" and text_starts_with_group_only(t):
             # `ldx.w (expr)` alone is the indirect addressing shape, not an expression: no claim here
             return res
-        if ctx == "reeval":
+        if ctx == "inner-assign":
+            exp = [B(4)] + blist(_pack(cx, "<HB", V & 0xFFFF, (V >> 16) & 0xFF)) + blist(_pack(cx, "<H", V & 0xFFFF))
+        elif ctx == "reeval":
             exp = blist(_pack(cx, "<HB", V & 0xFFFF, (V >> 16) & 0xFF)) + blist(_pack(cx, "<H", V2 & 0xFFFF))
         elif ctx == "splice2":
             exp = blist(_pack(cx, "<HB", V & 0xFFFF, (V >> 16) & 0xFF)) + blist(_pack(cx, "<HB", V2 & 0xFFFF, (V2 >> 16) & 0xFF))
